@@ -5,8 +5,9 @@ characters it consumed.  Every number in an LP / MPS / basis file passes through
 
 The state mirrors the C locals one for one (`a_dot, a_exp, a_exp_sgn, a_sgn, a_div, l_exp, sgn,
 exp_sgn, n_dig, cn, den[0], den[1]`); `den[cn]` is kept as the raw numerator/denominator pair the
-C code manipulates, `den[0]` becomes a value once `/` has been read.  `l_exp` is an unbounded `Nat`
-here and an `int` in C: the property restricts exponents to 4 digits.
+C code manipulates, `den[0]` becomes a value once `/` has been read.  `l_exp` is an `int` in C; since
+fix d278e6f a further exponent digit arriving when `l_exp > 9999` makes the scanner give up ("nothing
+read"), so `l_exp` never exceeds 99999 and the unbounded `Nat` here is faithful (`fail`).
 -/
 import Qsx.Model.Basic
 
@@ -26,6 +27,7 @@ structure St where
   den     : Nat := 1          -- denominator of den[cn]
   first   : Option Rat := none  -- den[0] after '/', i.e. cn = 1
   n       : Nat := 0          -- characters consumed
+  fail    : Bool := false     -- gave up: exponent of more than five digits
 deriving Repr, Inhabited
 
 def isDigit (c : Char) : Bool := '0' ≤ c && c ≤ '9'
@@ -48,6 +50,7 @@ def step (s : St) (c : Char) : St :=
     if s.aExp || s.nDig == 0 then
       { s with den := if s.aDot then s.den else s.den * 10, num := s.num * 10 + digitVal c,
                nDig := s.nDig + 1, aExp := true, aSgn := false }
+    else if s.lExp > 9999 then { s with fail := true }
     else
       { s with lExp := 10 * s.lExp + digitVal c, aExpSgn := false, aSgn := false }
   else if c == '.' then { s with aSgn := false, aDot := false }
@@ -63,7 +66,7 @@ def step (s : St) (c : Char) : St :=
 
 def scanLoop : St → List Char → St
   | s, [] => s
-  | s, c :: cs => if accepts s c then scanLoop (step s c) cs else s
+  | s, c :: cs => if s.fail then s else if accepts s c then scanLoop (step s c) cs else s
 
 inductive Val
   | none                -- zero characters reported: `var` is left untouched
@@ -71,6 +74,7 @@ inductive Val
 deriving Repr, BEq, Inhabited
 
 def result (s : St) : Nat × Val :=
+  if s.fail then (0, .none) else
   if s.n = 0 then (0, .none) else
   let cur := finishVal s.num s.den s.lExp s.expSgn s.sgn
   match s.first with
